@@ -419,8 +419,16 @@ class Diff:
         self.line_monitor = None      # optional: property predicate on each implementation line
         self.monitor_lines = 0
         self.base_timeout = 10
-        self.fail_budget_s = 240      # wall time allowed for isolating + shrinking failures
+        self.max_continuations = 400
+        self.cont_budget_s = 90 if ctx.tier == "quick" else 600
+        self.fail_budget_s = 240 if ctx.tier == "quick" else 1200   # wall time allowed for isolating + shrinking failures
         self.fail_spent = 0.0
+
+    def _any_report(self):
+        # the time budget for isolating/shrinking failures applies as soon as ANY difference has been
+        # reported (a harmless-looking one included): the verdict is then at least
+        # `no-failing-input-found`, and an unbounded search would make a run on a broken tree endless
+        return self.reports > 0 or self.harmless_reports > 0
 
     def both(self, lines):
         impl, crash, info = run_lines(self.exe, self.hargs, lines, timeout=self.base_timeout + len(lines) // 1000)
@@ -449,7 +457,7 @@ class Diff:
         """named_cases: list of (name, lines).  Returns number of failing cases."""
         if not named_cases:
             return 0
-        if self.reports >= self.max_reports or (self.reports and self.fail_spent > self.fail_budget_s):
+        if self.reports >= self.max_reports or (self._any_report() and self.fail_spent > self.fail_budget_s):
             self.skipped += len(named_cases)     # enough replays exist; the verdict is already VIOLATION
             return 0
         allines = [l for _, c in named_cases for l in c]
@@ -467,13 +475,13 @@ class Diff:
                 self.account(c, model[pos:pos + len(c)])
                 pos += len(c)
             return 0
-        if self.reports >= self.max_reports or (self.reports and self.fail_spent > self.fail_budget_s):
+        if self.reports >= self.max_reports or (self._any_report() and self.fail_spent > self.fail_budget_s):
             self.failing_cases += 1      # at least one more; not isolated (enough replays exist)
             return 1
         t_fail = time.time()
         # isolate: run every case alone (cases are self-contained)
         for name, c in named_cases:
-            if self.reports >= self.max_reports or (self.reports and
+            if self.reports >= self.max_reports or (self._any_report() and
                                                      self.fail_spent + time.time() - t_fail > self.fail_budget_s):
                 break
             impl, crash, info, model = self.both(c)
@@ -520,6 +528,30 @@ class Diff:
         verdict, why, sig = self.prop.classify(small, impl, crash, model)
         if crash is not None:
             sig = crash
+        if verdict != "violation" and crash is None and hasattr(self.prop, "continuations"):
+            # the difference found is one of representation only (the theorems no longer speak about this
+            # code, but no clause of the property fails on this input): look for a continuation of the
+            # shrunk history on which a clause of the property itself fails on the real code
+            t0, tried, found = time.time(), 0, None
+            saved2, self.base_timeout = self.base_timeout, 6
+            try:
+                for cont in self.prop.continuations(small, ctx.rng("cont:" + name)):
+                    tried += 1
+                    if tried > self.max_continuations or time.time() - t0 > self.cont_budget_s:
+                        break
+                    i2, c2, n2, m2 = self.both(small + cont)
+                    v2, w2, s2 = self.prop.classify(small + cont, i2, c2, m2)
+                    if c2 is not None or v2 == "violation":
+                        found = (small + cont, i2, c2, n2, m2, v2, w2, c2 if c2 else s2)
+                        break
+            finally:
+                self.base_timeout = saved2
+            ctx.stats["continuations_tried"] = ctx.stats.get("continuations_tried", 0) + tried
+            if found:
+                small, impl, crash, info, model, verdict, why, sig = found
+                name = name + "+continuation"
+                if crash is not None:
+                    verdict = "violation"
         replay = save_replay(ctx, {
             "property": ctx.prop_id, "kind": "correspondence", "case": name, "area": self.area,
             "lines": small, "impl_out": impl, "model_out": model, "crash": crash,
